@@ -437,3 +437,73 @@ Proof.
     destruct (sumMP l) as [[s0 s1] s2]. dv c. destruct (sum6 (map _ l)) as [[[[[t0 t1] t2] t3] t4] t5].
     unfold scl3, sub3, add6, sub6, offcenter. iR. apply sym_ext; field; exact NZ.
 Qed.
+
+(* ------------------------------------------------------------------------------------------ *)
+(* angle-valued joint attributes: the degree spelling of an angle compiles to the angle *)
+Lemma degFactor_R : degFactor (T:=R) = PI / 180.
+Proof. unfold degFactor, n180. num_R. reflexivity. Qed.
+Lemma convNonzero_R (x : R) : convNonzero x = x * (PI / 180).
+Proof.
+  unfold convNonzero. rewrite degFactor_R. num_R. destruct (Reqb x 0) eqn:E; [|reflexivity].
+  apply Reqb_true in E. subst x. ring.
+Qed.
+Lemma jointRange_degree (jtype : Z) (limited : bool) (lo hi : R) :
+  jointRange true jtype limited (if (limited && ((jtype =? 3)%Z || (jtype =? 1)%Z))%bool then (lo * 180 / PI, hi * 180 / PI) else (lo, hi))
+  = (lo, hi) /\ jointRange false jtype limited (lo, hi) = (lo, hi).
+Proof.
+  pose proof PI_RGT_0 as P. split.
+  - unfold jointRange. destruct limited; cbn [andb]; [|reflexivity].
+    destruct ((jtype =? 3)%Z || (jtype =? 1)%Z)%bool; [|reflexivity].
+    cbn [fst snd]. rewrite !convNonzero_R. f_equal; field; lra.
+  - unfold jointRange. rewrite andb_false_r. reflexivity.
+Qed.
+Lemma jointRef_degree (jtype : Z) (x : R) :
+  jointRef true jtype (if (jtype =? 3)%Z then x * 180 / PI else x) = x /\ jointRef false jtype x = x.
+Proof.
+  pose proof PI_RGT_0 as P. unfold jointRef. split; [|reflexivity]. cbn [andb].
+  destruct (jtype =? 3)%Z; [|reflexivity]. rewrite degFactor_R. num_R. field. lra.
+Qed.
+
+(* ------------------------------------------------------------------------------------------ *)
+(* mjCBody::AccumulateInertia (fusestatic / bodyToFrame): the child's tensor enters rotated by the child's body orientation *)
+Lemma mulMatMat3_assoc (a b c : mat3 R) : mulMatMat3 (mulMatMat3 a b) c = mulMatMat3 a (mulMatMat3 b c).
+Proof.
+  destruct a as [[[[[[[[a0 a1] a2] a3] a4] a5] a6] a7] a8]. destruct b as [[[[[[[[b0 b1] b2] b3] b4] b5] b6] b7] b8].
+  destruct c as [[[[[[[[c0 c1] c2] c3] c4] c5] c6] c7] c8]. unfold mulMatMat3. num_R. apply mat_ext; ring.
+Qed.
+Lemma transpose3_mul (a b : mat3 R) : transpose3 (mulMatMat3 a b) = mulMatMat3 (transpose3 b) (transpose3 a).
+Proof.
+  destruct a as [[[[[[[[a0 a1] a2] a3] a4] a5] a6] a7] a8]. destruct b as [[[[[[[[b0 b1] b2] b3] b4] b5] b6] b7] b8].
+  unfold mulMatMat3, transpose3. num_R. apply mat_ext; ring.
+Qed.
+(* R(q a) D R(q a)^T = R(q) (R(a) D R(a)^T) R(q)^T : composing the inertial quaternion with the body quaternion rotates the tensor *)
+Lemma globalinertia_compose (d : vec3 R) (q a : quat R) :
+  mat6 (globalinertia d (mulQuat q a)) =
+  mulMatMat3 (mulMatMat3 (quat2Mat q) (mat6 (globalinertia d a))) (transpose3 (quat2Mat q)).
+Proof.
+  rewrite !globalinertia_matrix, quat2Mat_mul, transpose3_mul, !mulMatMat3_assoc. reflexivity.
+Qed.
+Lemma accInertia2_eq (c : vec3 R) (l : list (cgeom R)) : accInertia2 c l = accInertia c l.
+Proof.
+  unfold accInertia2, accInertia.
+  assert (G : forall (l : list (cgeom R)) (t : sym6 R),
+             fold_left (fun (t : sym6 R) (g : cgeom R) => let '(a, b) := geomTensorAbout c g in add6 t (add6 a b)) l t =
+             fold_left (fun (t : sym6 R) (g : cgeom R) => let '(a, b) := geomTensorAbout c g in add6 (add6 t a) b) l t).
+  { induction l0 as [|g r IH]; intros t; simpl; [reflexivity|]. destruct (geomTensorAbout c g) as [a b].
+    rewrite <- add6_assoc. apply IH. }
+  apply G.
+Qed.
+Lemma accumulateInertia_spec (res : cgeom R) (opose : pose R) (m2 : R) (ip2 : vec3 R) (iq2 : quat R) (in2 : vec3 R) :
+  unitp opose -> unitq iq2 ->
+  let child := (m2, add3 (fst opose) (mulMatVec3 (quat2Mat (snd opose)) ip2), mulQuat (snd opose) iq2, in2) in
+  let l := [res; child] in
+  mjMINVAL <= accMass l ->
+  accumulateInertia res opose (m2, ip2, iq2, in2) =
+    IFull (accMass l) (scl3 (accCom l) (/ accMass l)) (accInertia (scl3 (accCom l) (/ accMass l)) l).
+Proof.
+  intros Uo Ui child l B. unfold accumulateInertia.
+  destruct (frameaccum_unit opose (ip2, iq2) Uo Ui) as [E _]. cbn [fst snd] in E. rewrite E.
+  fold child. fold l. num_R.
+  destruct (Rltb (accMass l) mjMINVAL) eqn:E1; [apply Rltb_true in E1; lra|].
+  destruct (accCom l) as [[c0 c1] c2]. rewrite accInertia2_eq. unfold scl3. num_R. reflexivity.
+Qed.
